@@ -37,6 +37,33 @@ TEXTS = {
 SETTER_TEXTS = ['tv }', 'print, }', 'x y )', '}', '{', 'a, ,', '@x', '"', 'top:', '1px }', 'screen and (', 'a|b|c', ':not(', '[']
 
 
+def gen_text(rnd):
+    """a setter / constructor argument from the grammars (media query lists with every feature with and without a value,
+    selector lists, declaration blocks, values), half of them mutated: arguments the fixed list does not have"""
+    from .. import sheetgen as G, selgen
+    k = rnd.choice(['mq', 'mq', 'sel', 'decls'])
+    if k == 'mq':
+        qs = []
+        for _ in range(rnd.randint(1, 3)):
+            q = []
+            if rnd.random() < 0.7:
+                q.append(rnd.choice(['', 'only ', 'not ']) + rnd.choice(G.MEDIA))
+            for _ in range(rnd.randint(0 if q else 1, 2)):
+                f, v = rnd.choice(G.FEATURES)
+                q.append('(%s%s)' % (f, (': ' + v) if v and rnd.random() < 0.6 else ''))
+            qs.append(' and '.join(q))
+        t = rnd.choice([', ', ',', ' , ']).join(qs)
+    elif k == 'sel':
+        g = selgen.Gen(rnd, avoid_known=False)
+        t = ', '.join(g.selector()[0] for _ in range(rnd.randint(1, 3)))
+    else:
+        t = G.render_decls(G.gen_decls(rnd, 1, 3), G.Layout(None), G.Plain())
+    if rnd.random() < 0.5 and t:
+        i = rnd.randrange(len(t) + 1)
+        t = t[:i] + rnd.choice(['', ' ', ',', '}', '{', ')', '(', ';', '"', '@x', '$', ':']) + t[i + rnd.randint(0, 2):]
+    return t
+
+
 def fetcher_ok(url):
     return (None, 'i { top: 1px }')
 
@@ -105,9 +132,9 @@ def api_call(rnd, pool=()):
     cp = _cp()
     k = rnd.choice(['parseString', 'parseString', 'parseStyle', 'parser-reuse', 'old-parser', 'old-parser', 'medialist', 'mediaquery', 'selector',
                     'selectorlist', 'style-text', 'property', 'sheet-text', 'rule-text', 'append-medium', 'append-selector',
-                    'serialize-prefs', 'csscombine', 'value', 'import-raise', 'set-raise', 'set-serializer'])
+                    'serialize-prefs', 'csscombine', 'value', 'import-raise', 'set-raise', 'set-serializer', 'import-media', 'parse-media'])
     t = rnd.choice(list(TEXTS))
-    s = rnd.choice(SETTER_TEXTS)
+    s = rnd.choice(SETTER_TEXTS) if rnd.random() < 0.5 else gen_text(rnd)
     raising = rnd.random() < 0.5
     if k == 'parseString':
         return ('parseString(%s, raise=%s)' % (t, raising),
@@ -150,8 +177,13 @@ def api_call(rnd, pool=()):
     if k == 'rule-text':
         def f():
             r = cp.css.CSSMediaRule()
-            r.cssText = '@media ' + s
-        return ('CSSMediaRule.cssText=%r' % s, f)
+            r.cssText = '@media ' + s + ('' if '{' in s else ' { a { top: 0 } }')
+        return ('CSSMediaRule.cssText=@media %r' % s, f)
+    if k == 'import-media':
+        return ('CSSImportRule(mediaText=%r)' % s, lambda: cp.css.CSSImportRule(href='x.css', mediaText=s))
+    if k == 'parse-media':
+        return ('parseString(@media %r, raise=%s)' % (s, raising), lambda: cp.CSSParser(
+            fetcher=fetcher_ok, raiseExceptions=raising).parseString('@media ' + s + ' { a { top: 0 } } b { left: 0 }'))
     if k == 'append-medium':
         return ('appendMedium(%r)' % s, lambda: cp.stylesheets.MediaList('print').appendMedium(s))
     if k == 'append-selector':
@@ -259,7 +291,7 @@ def run(tier, seed):
         'distinct_nontrivial': n,
         'rule': 'sequences of public-API calls (parseString / parseStyle with raising and non-raising parsers on 14 texts incl. '
                 'undecodable bytes, module-level parse helpers, MediaList / MediaQuery / Selector / SelectorList / '
-                'CSSStyleDeclaration / Property / PropertyValue constructors and text setters with 14 malformed texts, '
+                'CSSStyleDeclaration / Property / PropertyValue / CSSImportRule constructors and text setters with 14 malformed texts and with arguments from the media-query / selector / declaration grammars (every feature with and without a value), half of them mutated, '
                 'sheet and rule cssText, appendMedium, appendSelector, serialisation under private preferences, csscombine '
                 'incl. an unknown target encoding, a raising fetcher, and the caller changing raiseExceptions / the '
                 'serializer); after EVERY call log.raiseExceptions, the global serializer and its preferences, the '
